@@ -10,7 +10,7 @@ const TIMEOUT: f64 = 10.0;
 const FUNCTIONS: [&str; 3] = ["offset", "offset_lms_sampling", "offset_scaling"];
 const HAUSDORFF: f64 = 1.5;
 
-pub const C10_CLASSES: [&str; 7] = ["arch", "s_curve", "two_inflections", "near_line", "straight_line", "gentle_random", "random"];
+pub const C10_CLASSES: [&str; 8] = ["arch", "s_curve", "two_inflections", "near_line", "straight_line", "gentle_random", "random", "duplicate_extremity"];
 
 pub fn gen_curve(rng: &mut Rng, class: &str) -> Cub {
     match class {
@@ -19,6 +19,19 @@ pub fn gen_curve(rng: &mut Rng, class: &str) -> Cub {
             let (p0, p3) = (Coord2(rng.r(0.0, 100.0), rng.r(0.0, 100.0)), Coord2(rng.r(0.0, 100.0), rng.r(0.0, 100.0)));
             let d = p3 - p0; let n = Coord2(-d.1, d.0);
             [p0, p0 + d * rng.r(0.1, 0.5) + n * rng.r(-0.4, 0.4), p0 + d * rng.r(0.5, 0.9) + n * rng.r(-0.4, 0.4), p3]
+        }
+        "duplicate_extremity" => {
+            // control points on a 5-unit grid, drawn until `find_extremities` returns the same parameter twice inside (0.01, 0.99)
+            // (x' or y' has an exactly representable double root, or a root shared by both coordinates): `subdivide_offset`
+            // then forms a zero-length sub-section between the two copies
+            let g = |rng: &mut Rng| Coord2(rng.i(21) as f64 * 5.0, rng.i(21) as f64 * 5.0);
+            for _ in 0..20000 {
+                let w = [g(rng), g(rng), g(rng), g(rng)];
+                let mut ex: Vec<f64> = lib_curve(&w).find_extremities().into_iter().filter(|t| *t > 0.01 && *t < 0.99).collect();
+                ex.sort_by(|a, b| a.partial_cmp(b).unwrap());
+                if ex.windows(2).any(|p| p[0] == p[1]) && regularity(&w, 100).0 >= 1.0 { return w; }
+            }
+            gen_class(rng, "arch")
         }
         _ => gen_class(rng, class),
     }
@@ -69,9 +82,23 @@ pub fn check(stats: &mut Stats, w: &Cub, d: f64, class: &str) {
         let t = (k as f64 / 4000.0).max(1e-9).min(1.0 - 1e-9);
         let v = deriv(w, t); let l = (v.0 * v.0 + v.1 * v.1).sqrt();
         let own = eval(w, k as f64 / 4000.0) + Coord2(-v.1, v.0) * (d / l);
-        if dist(own, par[k]) > 1e-6 { stats.fail("C10", "normal_at_pos.not_rotated_unit_tangent", &format!("{} t={} library parallel point={:?} own={:?}", head, t, par[k], own)); return; }
+        if gt(dist(own, par[k]), 1e-6) { stats.fail("C10", "normal_at_pos.not_rotated_unit_tangent", &format!("{} t={} library parallel point={:?} own={:?}", head, t, par[k], own)); return; }
     }
     for f in FUNCTIONS.iter() {
+        // failures of offset_scaling on the input class whose `find_extremities` list contains a parameter twice are keyed by that class
+        // (see known_findings.json: zero-length sub-sections in `subdivide_offset`)
+        let tie = if class == "duplicate_extremity" && *f == "offset_scaling" { ".duplicate_extremity" } else { "" };
+        // accuracy failures of offset_scaling are keyed by how far the curve turns (the scaling heuristic places its focus on the two end
+        // normals: the further the curve turns, the further its normals are from meeting in one point)
+        let turn = if *f == "offset_scaling" {
+            // total turning of the tangent along the curve (sum of the signed angle steps on a 400-grid), not the angle between the end tangents:
+            // a hook that winds by 275 degrees has end tangents 85 degrees apart
+            let mut total = 0.0f64;
+            let mut prev = deriv(w, 0.0);
+            for k in 1..=400 { let v = deriv(w, k as f64 / 400.0); total += (prev.0 * v.1 - prev.1 * v.0).atan2(prev.0 * v.0 + prev.1 * v.1); prev = v; }
+            let ang = total.abs().to_degrees();
+            if ang >= 150.0 { ".tangent_turns_ge_150deg" } else if ang >= 90.0 { ".tangent_turns_90_to_150deg" } else { ".tangent_turns_lt_90deg" }
+        } else { "" };
         let desc = format!("{} function={} min_speed={:.3} max_curvature={:.5} {}", head, f, smin, kmax, infl);
         stats.case(&desc, true);
         stats.count(&format!("curve.{}", class));
@@ -90,26 +117,32 @@ pub fn check(stats: &mut Stats, w: &Cub, d: f64, class: &str) {
             Outcome::Hang => { stats.fail("C10", &format!("hang.{}.{}", f, infl), &format!("{} no result after {} s", desc, TIMEOUT)); continue; }
         };
         stats.count(&format!("chain_curves.{}.{}", f, match chain.len() { 0 => "0", 1 => "1", 2..=3 => "2_to_3", 4..=7 => "4_to_7", _ => "ge_8" }));
-        if chain.is_empty() { stats.fail("C10", &format!("offset.empty_chain.{}", f), &desc); continue; }
-        if chain.iter().any(|c| !finite_cub(c)) { stats.fail("C10", &format!("offset.non_finite.{}", f), &format!("{} chain={:?}", desc, chain)); continue; }
+        if chain.is_empty() { stats.fail("C10", &format!("offset.empty_chain.{}{}", f, tie), &desc); continue; }
+        if chain.iter().any(|c| !finite_cub(c)) { stats.fail("C10", &format!("offset.non_finite.{}{}", f, tie), &format!("{} chain={:?}", desc, chain)); continue; }
         let (s, e) = (chain[0][0], chain[chain.len() - 1][3]);
-        if dist(s, par[0]) > 1e-6 { stats.fail("C10", &format!("offset.start.{}", f), &format!("{} chain starts at {:?}, C(0)+d*n(0)={:?}, off by {:e}", desc, s, par[0], dist(s, par[0]))); }
-        if dist(e, par[4000]) > 1e-6 { stats.fail("C10", &format!("offset.end.{}", f), &format!("{} chain ends at {:?}, C(1)+d*n(1)={:?}, off by {:e}", desc, e, par[4000], dist(e, par[4000]))); }
-        if let Some(i) = (1..chain.len()).find(|i| dist(chain[*i - 1][3], chain[*i][0]) > 1e-6) {
-            stats.fail("C10", &format!("offset.gap.{}", f), &format!("{} curve {} ends at {:?}, curve {} starts at {:?}, gap {:e} ({} curves)", desc, i - 1, chain[i - 1][3], i, chain[i][0], dist(chain[i - 1][3], chain[i][0]), chain.len()));
+        if gt(dist(s, par[0]), 1e-6) { stats.fail("C10", &format!("offset.start.{}{}", f, tie), &format!("{} chain starts at {:?}, C(0)+d*n(0)={:?}, off by {:e}", desc, s, par[0], dist(s, par[0]))); }
+        if gt(dist(e, par[4000]), 1e-6) { stats.fail("C10", &format!("offset.end.{}{}", f, tie), &format!("{} chain ends at {:?}, C(1)+d*n(1)={:?}, off by {:e}", desc, e, par[4000], dist(e, par[4000]))); }
+        // size of the largest joint gap (offset / offset_lms_sampling join bit-exactly: the fitter passes the same point to both sides;
+        // offset_scaling evaluates the unit normal of two different sections at a joint, see C10.offset_scaling_chain)
+        if chain.len() > 1 {
+            let g = (1..chain.len()).map(|i| dist(chain[i - 1][3], chain[i][0])).fold(0.0f64, nmax);
+            stats.count(&format!("max_joint_gap.{}.{}", f, if g == 0.0 { "exactly_0" } else if g <= 1e-12 { "le_1e-12" } else if g <= 1e-9 { "le_1e-9" } else if g <= 1e-6 { "le_1e-6" } else { "gt_1e-6" }));
+        }
+        if let Some(i) = (1..chain.len()).find(|i| gt(dist(chain[*i - 1][3], chain[*i][0]), 1e-6)) {
+            stats.fail("C10", &format!("offset.gap.{}{}", f, tie), &format!("{} curve {} ends at {:?}, curve {} starts at {:?}, gap {:e} ({} curves)", desc, i - 1, chain[i - 1][3], i, chain[i][0], dist(chain[i - 1][3], chain[i][0]), chain.len()));
         }
         // chain -> parallel curve (200 samples per chain curve against the 4000-segment polyline)
         let cp = chain_points(&chain, 200);
         let (h1, at1) = directed(&cp, &par, 8);
-        if h1 > HAUSDORFF {
-            stats.fail("C10", &format!("offset.hausdorff_chain_to_parallel.{}.{}", f, infl), &format!("{} chain point {:?} is {:?} from the parallel curve ({} curves in the chain)", desc, at1, h1, chain.len()));
+        if gt(h1, HAUSDORFF) {
+            stats.fail("C10", &format!("offset.hausdorff_chain_to_parallel.{}.{}{}{}", f, infl, turn, tie), &format!("{} chain point {:?} is {:?} from the parallel curve ({} curves in the chain)", desc, at1, h1, chain.len()));
         }
         // parallel curve -> chain: every one of the 4001 samples; a suspected failure is confirmed against a 2000-segment
         // polyline per chain curve refined by golden section
         let (h2, at2) = directed(&par, &cp, 4);
-        if h2 > HAUSDORFF {
+        if gt(h2, HAUSDORFF) {
             let exact = chain.iter().map(|c| nearest_on_cub(c, at2, 2000).1).fold(f64::MAX, f64::min);
-            if exact > HAUSDORFF { stats.fail("C10", &format!("offset.hausdorff_parallel_to_chain.{}.{}", f, infl), &format!("{} parallel curve point {:?} is {:?} from the chain ({} curves in the chain)", desc, at2, exact, chain.len())); }
+            if gt(exact, HAUSDORFF) { stats.fail("C10", &format!("offset.hausdorff_parallel_to_chain.{}.{}{}{}", f, infl, turn, tie), &format!("{} parallel curve point {:?} is {:?} from the chain ({} curves in the chain)", desc, at2, exact, chain.len())); }
         }
         stats.count(&format!("hausdorff.{}.{}", f, if h1.max(h2) <= 0.15 { "le_0.15" } else if h1.max(h2) <= 0.75 { "le_0.75" } else if h1.max(h2) <= HAUSDORFF { "le_1.5" } else { "gt_1.5" }));
     }
@@ -130,5 +163,132 @@ pub fn search(seed: u64, n: u64) {
         check(&mut stats, &w, d, class);
     }
     stats.print("C10", "search");
+    finish();
+}
+
+// ------------------------------------------------------------------------------------------------------------------
+// correspondence: the real functions against the Float mirror of `Gen/Offset.lean` + `Model/Offset.lean` (bit for bit)
+
+fn cat_code(c: CurveCategory) -> usize {
+    match c { CurveCategory::Point => 0, CurveCategory::Linear => 1, CurveCategory::Arch => 2, CurveCategory::SingleInflectionPoint => 3,
+        CurveCategory::DoubleInflectionPoint => 4, CurveCategory::Parabolic => 5, CurveCategory::Cusp => 6, CurveCategory::Loop => 7 }
+}
+fn feat_code(f: CurveFeatures) -> (usize, f64, f64) {
+    match f { CurveFeatures::Point => (0, 0.0, 0.0), CurveFeatures::Linear => (1, 0.0, 0.0), CurveFeatures::Arch => (2, 0.0, 0.0),
+        CurveFeatures::SingleInflectionPoint(t) => (3, t, 0.0), CurveFeatures::DoubleInflectionPoint(a, b) => (4, a, b),
+        CurveFeatures::Parabolic => (5, 0.0, 0.0), CurveFeatures::Cusp => (6, 0.0, 0.0), CurveFeatures::Loop(a, b) => (7, a, b) }
+}
+fn feat_name(k: usize) -> &'static str { ["point", "linear", "arch", "single_inflection", "double_inflection", "parabolic", "cusp", "loop"][k] }
+fn hxc(w: &Cub) -> String { w.iter().map(|p| format!("{} {}", hx(p.0), hx(p.1))).collect::<Vec<_>>().join(" ") }
+fn hxp(p: Coord2) -> String { format!("{} {}", hx(p.0), hx(p.1)) }
+
+/// curves for the correspondence run: every class of the search, every degenerate class of `cshapes`, and curves on small
+/// integer grids (exact collinearity / coincidence / cusp conditions, where the branch conditions of the classification tie)
+fn gen_corr_curve(rng: &mut Rng) -> (Cub, String) {
+    match rng.i(10) {
+        0..=3 => { let class = C10_CLASSES[rng.i(C10_CLASSES.len() as u64) as usize]; (gen_curve(rng, class), class.to_string()) }
+        4..=6 => { let class = CURVE_CLASSES[rng.i(CURVE_CLASSES.len() as u64) as usize]; (gen_class(rng, class), class.to_string()) }
+        7 => { let g = |rng: &mut Rng| Coord2(rng.i(5) as f64, rng.i(5) as f64); ([g(rng), g(rng), g(rng), g(rng)], "grid5".to_string()) }
+        8 => { let g = |rng: &mut Rng| Coord2(rng.i(101) as f64, rng.i(101) as f64); ([g(rng), g(rng), g(rng), g(rng)], "grid101".to_string()) }
+        _ => { let g = |rng: &mut Rng| Coord2(rng.dyadic(0, 100, 8), rng.dyadic(0, 100, 8)); ([g(rng), g(rng), g(rng), g(rng)], "dyadic".to_string()) }
+    }
+}
+
+/// `find_self_intersection_point(curve, 0.01)` is an input of the model (it is not translated): `#1 t1 t2` or `#0 0 0`
+fn loop_hint(c: &Curve<Coord2>) -> Option<String> {
+    let c2 = c.clone();
+    match guarded(TIMEOUT, move || find_self_intersection_point(&c2, 0.01)) {
+        Outcome::Done(Some((a, b))) => Some(format!("#1 {} {}", hx(a), hx(b))),
+        Outcome::Done(None) => Some(format!("#0 {} {}", hx(0.0), hx(0.0))),
+        _ => None,
+    }
+}
+
+fn gen_offsets(rng: &mut Rng) -> (f64, f64, &'static str) {
+    let s = if rng.b() { 1.0 } else { -1.0 };
+    match rng.i(8) {
+        0..=3 => { let d = s * rng.r(1.0, 8.0); (d, d, "constant") }
+        4 => { let d = s * (1 + rng.i(8)) as f64; (d, d, "constant_integer") }
+        5 => (s * rng.r(1.0, 8.0), s * rng.r(1.0, 8.0), "variable"),
+        6 => (0.0, 0.0, "zero"),
+        _ => (s * rng.r(0.0, 40.0), -s * rng.r(0.0, 40.0), "variable_sign_change"),
+    }
+}
+
+pub fn corr(seed: u64, n: u64) {
+    use std::cell::RefCell;
+    let mut rng = Rng(seed ^ 0xC0221C10);
+    let mut stats = Stats::new();
+    install_silent_hook();
+    for _ in 0..n {
+        let (w, class) = gen_corr_curve(&mut rng);
+        let c = lib_curve(&w);
+        match rng.i(8) {
+            0 | 1 => {
+                // tangent_at_pos / normal_at_pos / to_unit_vector at end parameters (the epsilon nudge), interior and outside parameters
+                let t = match rng.i(8) { 0 => 0.0, 1 => 1.0, 2 => f64::EPSILON, 3 => 1.0 - f64::EPSILON, 4 => -0.0, 5 => rng.r(-0.5, 1.5), _ => rng.f() };
+                let (tg, nm) = (c.tangent_at_pos(t), c.normal_at_pos(t));
+                let (utg, unm) = (tg.to_unit_vector(), nm.to_unit_vector());
+                let line = format!("C10 normal R {} {} | {} {} {} {}", hxc(&w), hx(t), hxp(tg), hxp(nm), hxp(utg), hxp(unm));
+                stats.case(&line, tg.0 != 0.0 || tg.1 != 0.0);
+                stats.count(&format!("normal.curve.{}", class));
+                stats.count(if t == 0.0 || t == 1.0 { "normal.t_end_nudged" } else if t > 0.0 && t < 1.0 { "normal.t_interior" } else { "normal.t_outside" });
+                if tg.0 == 0.0 && tg.1 == 0.0 { stats.count("normal.zero_tangent"); }
+                println!("{}", line);
+            }
+            2 | 3 => {
+                let hint = match loop_hint(&c) { Some(h) => h, None => { stats.count("excluded.find_self_intersection_point_hang_or_panic"); continue; } };
+                let c2 = c.clone();
+                let r = guarded(TIMEOUT, move || (characterize_curve(&c2), features_for_curve(&c2, 0.01)));
+                let (cat, feat) = match r { Outcome::Done(v) => v, _ => { stats.count("excluded.features_hang_or_panic"); continue; } };
+                let (fk, p1, p2) = feat_code(feat);
+                let line = format!("C10 features R {} {} | #{} #{} {} {}", hxc(&w), hint, cat_code(cat), fk, hx(p1), hx(p2));
+                stats.case(&line, fk >= 2);
+                stats.count(&format!("features.curve.{}", class));
+                stats.count(&format!("features.result.{}", feat_name(fk)));
+                stats.count(&format!("features.category.{}", feat_name(cat_code(cat))));
+                println!("{}", line);
+            }
+            4 | 5 => {
+                // offset_lms_sampling: the parameters at which the offset closures are called (= the sample parameters), and the
+                // first / last point of the fitted chain
+                let hint = match loop_hint(&c) { Some(h) => h, None => { stats.count("excluded.find_self_intersection_point_hang_or_panic"); continue; } };
+                let (d0, d1, dk) = gen_offsets(&mut rng);
+                let toff = if rng.i(4) == 0 { rng.r(-2.0, 2.0) } else { 0.0 };
+                let subdivisions = [0u32, 1, 2, 3, 5, 8, 32, 33][rng.i(8) as usize];
+                let use_offset = rng.i(4) == 0;
+                let c2 = c.clone();
+                let r = guarded(TIMEOUT, move || {
+                    let ts: RefCell<Vec<f64>> = RefCell::new(vec![]);
+                    let chain = if use_offset { Some(offset(&c2, d0, d1)) } else {
+                        offset_lms_sampling(&c2, |t| { ts.borrow_mut().push(t); (d1 - d0) * t + d0 }, |_| toff, subdivisions, 0.1) };
+                    (ts.into_inner(), chain)
+                });
+                let (ts, chain) = match r { Outcome::Done(v) => v, _ => { stats.count("excluded.offset_lms_hang_or_panic"); continue; } };
+                let ends = match &chain { Some(v) if !v.is_empty() => format!("#{} {} {}", v.len(), hxp(v[0].start_point()), hxp(v[v.len() - 1].end_point())), _ => "#0".to_string() };
+                let line = if use_offset { format!("C10 offset R {} {} {} {} | {}", hxc(&w), hx(d0), hx(d1), hint, ends) }
+                    else { format!("C10 lms R {} #{} {} {} {} {} | #{} #{} {} {}", hxc(&w), subdivisions, hx(d0), hx(d1), hx(toff), hint, if chain.is_some() { 1 } else { 0 }, ts.len(), hxs(&ts), ends) };
+                stats.case(&line, chain.as_ref().map(|v| v.len()).unwrap_or(0) > 0);
+                stats.count(&format!("{}.curve.{}", if use_offset { "offset" } else { "lms" }, class));
+                stats.count(&format!("lms.offsets.{}", dk));
+                if !use_offset { stats.count(&format!("lms.subdivisions.{}", subdivisions)); stats.count(&format!("lms.samples.{}", ts.len())); }
+                println!("{}", line);
+            }
+            _ => {
+                let hint = match loop_hint(&c) { Some(h) => h, None => { stats.count("excluded.find_self_intersection_point_hang_or_panic"); continue; } };
+                let (d0, d1, dk) = gen_offsets(&mut rng);
+                let c2 = c.clone();
+                let r = guarded(TIMEOUT, move || offset_scaling(&c2, d0, d1));
+                let chain: Vec<Cub> = match r { Outcome::Done(v) => v.iter().map(cub_of).collect(), _ => { stats.count("excluded.offset_scaling_hang_or_panic"); continue; } };
+                let line = format!("C10 scaling R {} {} {} {} | #{} {}", hxc(&w), hx(d0), hx(d1), hint, chain.len(), chain.iter().map(hxc).collect::<Vec<_>>().join(" "));
+                stats.case(&line, chain.len() > 1);
+                stats.count(&format!("scaling.curve.{}", class));
+                stats.count(&format!("scaling.offsets.{}", dk));
+                stats.count(&format!("scaling.curves.{}", match chain.len() { 0 => "0", 1 => "1", 2..=3 => "2_to_3", 4..=7 => "4_to_7", 8..=31 => "8_to_31", _ => "ge_32" }));
+                println!("{}", line);
+            }
+        }
+    }
+    stats.print("C10", "corr");
     finish();
 }
